@@ -163,6 +163,12 @@ def run(ctx):
                  (["--no-verbose"], ["--threshold=1"]), (["-j"], ["--json"]),
                  (["--include-regexp", "refs/heads/.*"], ["--include", "/refs/heads/.*/"]),
                  (["--exclude-regexp", "refs/tags/.*"], ["--exclude", "/refs/tags/.*/"]),
+                 # regular expressions that themselves begin or end with a slash: only the two delimiters are taken off
+                 (["--include-regexp", "/?refs/heads/.*"], ["--include", "//?refs/heads/.*/"]),
+                 (["--include-regexp", "/refs/heads/.*/"], ["--include", "//refs/heads/.*//"]),
+                 (["--exclude-regexp", "refs/tags/.*/?"], ["--exclude", "/refs/tags/.*/?/"]),
+                 (["--include-regexp", "/*refs/tags/v1|refs/heads/.*"], ["--include", "//*refs/tags/v1|refs/heads/.*/"]),
+                 (["--include-regexp", "/"], ["--include", "///"]),
                  (["--refgroup", "tags"], ["--include", "@tags"]), (["--refgroup=branches", "-v"], ["--include=@branches", "-v"])]
         for a, b in pairs:
             for extra in ([], ["--json"], ["--json", "--json-version=2"], ["--names=hash"]):
